@@ -6,7 +6,7 @@ import os
 from typing import Any, Callable, Dict, List, Optional
 
 from mc.common import Acc, jsonable
-from mc.vloop import HarnessError, World, apply_step, build, explore
+from mc.vloop import HarnessError, Livelock, World, apply_step, build, explore
 
 
 def mark_stateless(scs: List[Dict[str, Any]], k: int, depth: int) -> List[Dict[str, Any]]:
@@ -43,8 +43,20 @@ def run_scenarios(
         # CPU-seconds per scenario; on the unchanged tree the largest quick scenario needs about 35, the largest
         # thorough one about 250 (a change that makes the state space unbounded runs into it)
         default_budget = 120.0 if os.environ.get("MC_TIER", "quick") == "quick" else 900.0
-        res = explore(mk, level=level, max_states=sc.get("max_states", 60000), stop_prefix=prefix,
-                      time_budget=sc.get("time_budget", default_budget))
+        try:
+            res = explore(mk, level=level, max_states=sc.get("max_states", 60000), stop_prefix=prefix,
+                          time_budget=sc.get("time_budget", default_budget))
+        except Livelock as exc:
+            # the code under test kept the event loop busy for thousands of consecutive iterations without
+            # waiting for a timer or an external event. For a world whose property fixes *when* things happen
+            # (the scheduler loop sleeps to the next minute boundary) that is a violation; elsewhere it stays a
+            # harness problem (re-raised, reported with exit status 2)
+            if not getattr(make_world, "livelock_is_violation", False):
+                raise
+            acc.count("scenarios")
+            acc.violation("event-loop-never-sleeps", f"the loop under test spins without ever sleeping ({exc}) | scenario=" + json.dumps(jsonable(_brief(sc))),
+                          {"scenario": sc, "history": [], "key": prefix + "event-loop-never-sleeps"})
+            break  # the property has failed; the other scenarios of this shard would spin the same way
         acc.states += res.states
         acc.transitions += res.transitions
         acc.paths += res.executions
@@ -143,13 +155,18 @@ def _confirm_deterministic(mk: Callable[[], World], hist: List[Any], key: str) -
 
 def replay(obj: Dict[str, Any], make_world: Callable[[Dict[str, Any]], World]) -> int:
     sc = obj["scenario"]
-    w = make_world(sc)
-    keys = [k for k, _ in w.violations]
-    msgs = list(w.violations)
-    for step in obj["history"]:
-        apply_step(w, step)
-        msgs.extend(w.violations)
-        w.violations.clear()
+    try:
+        w = make_world(sc)
+        keys = [k for k, _ in w.violations]
+        msgs = list(w.violations)
+        for step in obj["history"]:
+            apply_step(w, step)
+            msgs.extend(w.violations)
+            w.violations.clear()
+    except Livelock as exc:
+        print("scenario:", json.dumps(jsonable(_brief(sc))))
+        print("oracle:", obj["key"], "- the loop under test spins without ever sleeping:", exc)
+        return 1 if obj["key"].endswith("event-loop-never-sleeps") else 0
     w.activate()
     w.check_quiescent()
     if not w.enabled():
